@@ -6,14 +6,21 @@
 (* after every command) is a loop inside one step:                         *)
 (*                                                                         *)
 (*   io dispatcher (src/io.rs)      response queue with inline future and  *)
-(*                                  spawned tasks, handle_result, error    *)
-(*                                  records queued behind pending          *)
-(*                                  responses, read pause while the service*)
-(*                                  is not ready                           *)
+(*                                  spawned tasks (polled once before the  *)
+(*                                  next readiness check), handle_result,  *)
+(*                                  errors never wait behind responses,    *)
+(*                                  read pause while the service is not    *)
+(*                                  ready                                  *)
+(*   in-flight limiter              src/inflight.rs (v3 server: count and  *)
+(*                                  bytes, v5 server: bytes) and the       *)
+(*                                  ntex-util InFlightService of the v3    *)
+(*                                  client: a request is charged from its  *)
+(*                                  dispatch until its result exists       *)
 (*   protocol dispatchers           src/v3/dispatcher.rs, src/v5/..,       *)
 (*                                  src/v3/client/.., src/v5/client/..:    *)
 (*                                  in-flight id set, QoS 2 state,         *)
-(*                                  duplicate handling, PUBREL, routing of *)
+(*                                  duplicate handling, Receive Maximum,   *)
+(*                                  maximum QoS, topic aliases, PUBREL,    *)
 (*                                  SUBSCRIBE / UNSUBSCRIBE / PINGREQ      *)
 (*   control pipeline               BufferService(16) in front of          *)
 (*                                  InFlightService(1): direct call, parked*)
@@ -37,9 +44,14 @@
 EXTENDS Naturals, Integers, Sequences, FiniteSets, TLC
 
 CONSTANTS
-  Ver,        \* 3 | 5
-  Role,       \* "server" | "client"
-  GateProto   \* BOOLEAN: protocol-control handlers are gated (else they answer inside the call)
+  Ver,          \* 3 | 5
+  Role,         \* "server" | "client"
+  GateProto,    \* BOOLEAN: protocol-control handlers are gated (else they answer inside the call)
+  MaxRecv,      \* max_receive: concurrent requests (0 = unlimited); MQTT 3.1.1 endpoints only
+  MaxRecvSize,  \* max_receive_size: bytes of concurrent requests (0 = unlimited); servers only
+  RecvMax,      \* MQTT 5 Receive Maximum announced by this endpoint (0 = none)
+  MaxQos,       \* maximum QoS accepted (servers)
+  AliasMax      \* MQTT 5 Topic Alias Maximum announced by this endpoint
 
 E(e, k, s, id, q, r, n, x) == [e |-> e, k |-> k, s |-> s, id |-> id, q |-> q, r |-> r, n |-> n, x |-> x]
 Quiet == E("quiet", "alive", 0, 0, 0, 0, 0, "")
@@ -47,18 +59,23 @@ Quiet == E("quiet", "alive", 0, 0, 0, 0, 0, "")
 None == [k |-> "NONE", id |-> 0, rc |-> 0]        \* Ok(None)
 Pend == [k |-> "PEND", id |-> 0, rc |-> 0]        \* ServiceResult::Pending
 Resp(k, id, rc) == [k |-> k, id |-> id, rc |-> rc]
-ErrRec(kind) == [k |-> "ERR", id |-> IF kind = "stop_proto" THEN 1 ELSE 2, rc |-> 0]
+\* Err(..): class of the Stop it leads to and the MQTT 5 DISCONNECT reason code
+ErrRec(kind, rc) == [k |-> "ERR", id |-> IF kind = "stop_proto" THEN 1 ELSE 2, rc |-> rc]
 IsErr(r) == r.k = "ERR"
 ErrKind(r) == IF r.id = 1 THEN "stop_proto" ELSE "stop_error"
+NoErr == [kind |-> "none", rc |-> 0]
 
 InitH == IF Role = "server" THEN 2 ELSE 1       \* the handshake handler was h = 1
+TopicName(topic) == IF topic = "long" THEN "tttttttttttttttttttttttttttttttttttttttt" ELSE topic
 
 Init0 == [ alive   |-> TRUE,
-           ioq     |-> << >>,     \* response queue of io.rs: Seq of [n, r]
+           ioq     |-> << >>,     \* response queue of io.rs: Seq of [n, r, sz]
            inline  |-> 0,         \* n of the request whose future the dispatcher polls inline (0 = none)
-           err     |-> "none",    \* state.error of io.rs (class of the stored error)
+           err     |-> NoErr,     \* state.error of io.rs
            ids     |-> {},        \* in-flight id set of the protocol dispatcher
+           pubIds  |-> {},        \* ... those that belong to QoS 1/2 publishes (MQTT 5: counted against Receive Maximum)
            q2rec   |-> {},        \* ids of QoS 2 publishes whose PUBREC went out
+           aliases |-> << >>,     \* MQTT 5 topic alias bindings: Seq of [a, topic]
            gates   |-> << >>,     \* handlers waiting for the application: Seq of [h, n, kind, id, q]
            ctlRun  |-> 0,         \* n of the control request whose handler runs (0 = none)
            held    |-> FALSE,     \* that request was released from the buffer: readiness is held until it ends
@@ -68,6 +85,10 @@ Init0 == [ alive   |-> TRUE,
            nextH   |-> InitH,
            narr    |-> 0,
            closed  |-> FALSE,     \* the io was closed by the endpoint itself (sink.close()): later writes are dropped
+           rdy     |-> FALSE,     \* the pending readiness future has already obtained the readiness of the inner
+                                  \* service (join in InFlightServiceImpl::ready) and only waits for the limiter
+           ch      |-> 0,         \* scheduling choice of the current command (see Quiesce)
+           cur     |-> 0,         \* bytes the limiter charges for the request being dispatched
            ev      |-> << >> ]    \* events of the current command
 
 Emit(st, evs) == [st EXCEPT !.ev = @ \o evs]
@@ -86,9 +107,8 @@ FailClose(st, isCtl) == IF Ver = 3 /\ (isCtl \/ Role = "client") THEN CloseSink(
 ----------------------------------------------------------------------------
 \* Control::Stop and shutdown.  The connection task completes at once unless the BufferService still
 \* holds a released call (next_call guard) or parked calls: then its shutdown waits for them.
-Stop(st, kind) ==
+Stop(st, kind, rc) ==
   LET h == st.nextH
-      rc == IF kind = "stop_proto" THEN 130 ELSE 131
       s1 == Emit(st, << E("ctl", kind, h, 0, 0, 0, 0, ""), E("ctl_done", "ok", h, 0, 0, 0, 0, "") >>
                      \o (IF (st.ctlRun # 0 /\ st.held) \/ st.ctlBuf # << >> THEN << >>
                          ELSE << E("conn_done", "ok", 0, 0, 0, 0, 0, "") >>))
@@ -96,10 +116,11 @@ Stop(st, kind) ==
   IN [CloseSink(s2) EXCEPT !.alive = FALSE, !.nextH = h + 1]
 
 \* the dispatcher notices state.error at its next poll
-CheckErr(st) == IF st.err # "none" /\ st.alive THEN Stop(st, st.err) ELSE st
+CheckErr(st) == IF st.err.kind # "none" /\ st.alive THEN Stop(st, st.err.kind, st.err.rc) ELSE st
+SetErr(st, r) == [st EXCEPT !.err = [kind |-> ErrKind(r), rc |-> r.rc]]
 
 \* act on one result: write the response or remember the error (the last error wins)
-Act(st, r) == IF IsErr(r) THEN [st EXCEPT !.err = ErrKind(r)] ELSE Write(st, r)
+Act(st, r) == IF IsErr(r) THEN SetErr(st, r) ELSE Write(st, r)
 
 \* drain Ready entries at the front of the queue
 RECURSIVE Drain(_)
@@ -112,19 +133,21 @@ HandleRes(st, n, r) ==
   LET s1 == [st EXCEPT !.inline = IF @ = n THEN 0 ELSE @] IN
   IF s1.ioq # << >> /\ Head(s1.ioq).n = n
     THEN CheckErr(Drain(Act([s1 EXCEPT !.ioq = Tail(@)], r)))
-    ELSE IF IsErr(r) THEN CheckErr([s1 EXCEPT !.err = ErrKind(r)])       \* the slot stays Pending for ever
-    ELSE [s1 EXCEPT !.ioq = [i \in 1..Len(@) |-> IF @[i].n = n THEN [n |-> n, r |-> r] ELSE @[i]]]
+    ELSE IF IsErr(r) THEN CheckErr(SetErr(s1, r))       \* the slot stays Pending for ever
+    ELSE [s1 EXCEPT !.ioq = [i \in 1..Len(@) |-> IF @[i].n = n THEN [@[i] EXCEPT !.r = r] ELSE @[i]]]
+
+Entry(st, n, r) == [n |-> n, r |-> r, sz |-> st.cur]
 
 \* call_service: the result is ready inside the call
 InCall(st, n, r) ==
   IF st.inline # 0
-    THEN HandleRes([st EXCEPT !.ioq = Append(@, [n |-> n, r |-> Pend])], n, r)      \* spawned task
+    THEN HandleRes([st EXCEPT !.ioq = Append(@, Entry(st, n, Pend))], n, r)      \* polled once, then as a spawned task
   ELSE IF st.ioq = << >> THEN CheckErr(Act(st, r))
-  ELSE IF IsErr(r) THEN CheckErr([st EXCEPT !.err = ErrKind(r)])     \* an error does not wait behind pending responses
-  ELSE [st EXCEPT !.ioq = Append(@, [n |-> n, r |-> r])]
+  ELSE IF IsErr(r) THEN CheckErr(SetErr(st, r))     \* an error does not wait behind pending responses
+  ELSE [st EXCEPT !.ioq = Append(@, Entry(st, n, r))]
 
 \* call_service: the future is pending
-Pending(st, n) == [st EXCEPT !.ioq = Append(@, [n |-> n, r |-> Pend]), !.inline = IF @ = 0 THEN n ELSE @]
+Pending(st, n) == [st EXCEPT !.ioq = Append(@, Entry(st, n, Pend)), !.inline = IF @ = 0 THEN n ELSE @]
 
 ----------------------------------------------------------------------------
 \* results of handlers
@@ -133,35 +156,38 @@ Pending(st, n) == [st EXCEPT !.ioq = Append(@, [n |-> n, r |-> Pend]), !.inline 
 PubFails(q, outcome) == outcome = "err" \/ (outcome = "nack" /\ (Ver = 3 \/ (q = 0 /\ Role = "server")))
 \* the client role acknowledges QoS 2 like QoS 1 (publish_fn of the client dispatchers: known finding C03)
 PubResult(q, id, outcome) ==
-  IF PubFails(q, outcome) THEN ErrRec("stop_error")
+  IF PubFails(q, outcome) THEN ErrRec("stop_error", 131)
   ELSE IF q = 0 THEN None
   ELSE Resp(IF q = 2 /\ Role = "server" THEN "PUBREC" ELSE "PUBACK", id, IF outcome = "nack" THEN 135 ELSE 0)
 
 \* bookkeeping when a publish handler has completed
 PubDone(st, q, id, outcome) ==
   IF PubFails(q, outcome) THEN st
-  ELSE IF Role = "client" THEN [st EXCEPT !.ids = @ \ {id}]
-  ELSE [st EXCEPT !.ids = IF q = 1 \/ (q = 2 /\ outcome = "nack") THEN @ \ {id} ELSE @,
-                  !.q2rec = IF q = 2 /\ outcome = "ok" THEN @ \cup {id} ELSE @]
+  ELSE IF Role = "client" THEN [st EXCEPT !.ids = @ \ {id}, !.pubIds = @ \ {id}]
+  ELSE IF q = 1 \/ (q = 2 /\ outcome = "nack")
+    THEN [st EXCEPT !.ids = @ \ {id}, !.pubIds = @ \ {id}]
+  ELSE [st EXCEPT !.q2rec = IF q = 2 /\ outcome = "ok" THEN @ \cup {id} ELSE @]
 
+\* (protocol handlers of the harness: "err" fails, every other outcome acknowledges)
+CtlFails(outcome) == outcome = "err"
 CtlResult(kind, id, outcome) ==
-  IF outcome # "ok" THEN ErrRec("stop_error")
+  IF CtlFails(outcome) THEN ErrRec("stop_error", 131)
   ELSE CASE kind = "pubrel" -> Resp("PUBCOMP", id, 0)
          [] kind = "sub" -> Resp("SUBACK", id, 1)
          [] kind = "unsub" -> Resp("UNSUBACK", id, 0)
          [] OTHER -> Resp("PINGRESP", 0, 0)
 
 CtlDone(st, kind, id, outcome) ==
-  [st EXCEPT !.ids = IF outcome = "ok" /\ kind \in {"sub", "unsub", "pubrel"} THEN @ \ {id} ELSE @,
+  [st EXCEPT !.ids = IF ~CtlFails(outcome) /\ kind \in {"sub", "unsub", "pubrel"} THEN @ \ {id} ELSE @,
+             !.pubIds = IF ~CtlFails(outcome) /\ kind = "pubrel" THEN @ \ {id} ELSE @,
              !.ctlRun = 0, !.held = FALSE]
 
 HStartId(kind, id) == IF Ver = 5 /\ kind # "ping" THEN id ELSE 0
 
-\* a publish handler starts for request n
-StartPub(st, n, q, id) ==
+\* a publish handler starts for request n (the in-flight id was recorded by the caller)
+StartPub(st, n, q, id, topic, plen) ==
   LET h == st.nextH
-      s1 == [Emit(st, << E("h_start", "pub", h, id, q, 0, 1, "t") >>) EXCEPT !.nextH = h + 1,
-                !.ids = IF q > 0 THEN @ \cup {id} ELSE @]
+      s1 == [Emit(st, << E("h_start", "pub", h, id, q, 0, plen, TopicName(topic)) >>) EXCEPT !.nextH = h + 1]
   IN IF s1.armed # << >>
        THEN LET o == Head(s1.armed)
                 s2 == PubDone([Emit(s1, << E("h_end", o, h, 0, 0, 135, 0, "") >>) EXCEPT !.armed = Tail(@)], q, id, o)
@@ -179,7 +205,7 @@ StartCtl(st, n, kind, id, released) ==
        THEN LET o == IF s1.armed # << >> THEN Head(s1.armed) ELSE "ok"
                 s2 == CtlDone([Emit(s1, << E("h_end", o, h, 0, 0, 135, 0, "") >>)
                                  EXCEPT !.armed = IF @ # << >> THEN Tail(@) ELSE @], kind, id, o)
-                s3 == IF o # "ok" THEN FailClose(s2, TRUE) ELSE s2
+                s3 == IF CtlFails(o) THEN FailClose(s2, TRUE) ELSE s2
             IN << s3, CtlResult(kind, id, o) >>
        ELSE << [s1 EXCEPT !.gates = Append(@, [h |-> h, n |-> n, kind |-> kind, id |-> id, q |-> 0])], Pend >>
 
@@ -193,73 +219,136 @@ CtlArrive(st, n, kind, id) ==
        ELSE Pending([s0 EXCEPT !.ctlBuf = Append(@, [n |-> n, kind |-> kind, id |-> id])], n)
 
 ----------------------------------------------------------------------------
+\* MQTT 5 topic aliases
+AliasIdx(st, a) == IF \E i \in 1..Len(st.aliases) : st.aliases[i].a = a
+                     THEN CHOOSE i \in 1..Len(st.aliases) : st.aliases[i].a = a ELSE 0
+\* <<ok, state, resolved topic, DISCONNECT reason code when not ok>>
+Resolve(st, p) ==
+  IF Ver # 5 \/ p.alias = 0 THEN << TRUE, st, p.topic, 0 >>
+  ELSE LET i == AliasIdx(st, p.alias) IN
+       IF p.topic = ""
+         THEN (IF i = 0 THEN << FALSE, st, "", 148 >> ELSE << TRUE, st, st.aliases[i].topic, 0 >>)
+         ELSE IF i > 0 THEN << TRUE, [st EXCEPT !.aliases[i].topic = p.topic], p.topic, 0 >>
+         ELSE IF p.alias > AliasMax THEN << FALSE, st, "", 130 >>
+         ELSE << TRUE, [st EXCEPT !.aliases = Append(@, [a |-> p.alias, topic |-> p.topic])], p.topic, 0 >>
+
 \* the dispatcher reads one packet
-Dispatch(st, p) ==
+Dispatch(st0, p) ==
   LET n == p.n
-      Viol == InCall(st, n, ErrRec("stop_proto"))
+      st == [st0 EXCEPT !.cur = p.sz]
+      Viol(s, rc) == InCall(s, n, ErrRec("stop_proto", rc))
   IN
-  CASE p.kind \in {"pub0", "pub1", "pub2"} ->
-         LET q == IF p.kind = "pub0" THEN 0 ELSE IF p.kind = "pub1" THEN 1 ELSE 2
+  CASE p.kind = "pub" ->
+         LET q == p.q
              id == IF q = 0 THEN 0 ELSE p.id IN
-         IF q > 0 /\ id \in st.ids
-           THEN IF Ver = 3 THEN Viol
+         IF q = 0
+           THEN LET r == Resolve(st, p) IN
+                IF r[1] THEN StartPub(r[2], n, 0, 0, r[3], p.plen) ELSE Viol(st, r[4])
+         ELSE IF Ver = 5 /\ RecvMax # 0 /\ Cardinality(st.pubIds) >= RecvMax THEN Viol(st, 147)
+         ELSE IF Ver = 5 /\ Role = "server" /\ q > MaxQos THEN Viol(st, 155)
+         ELSE IF id \in st.ids
+           THEN IF Ver = 3 THEN Viol(st, 130)
                 \* v5: PUBACK 0x91 written at once through the sink; the request yields None
-                ELSE InCall(Emit(st, << E("out", "PUBACK", 0, id, 0, 145, 0, "") >>), n, None)
-           ELSE StartPub(st, n, q, id)
+                ELSE InCall(Write(st, Resp("PUBACK", id, 145)), n, None)
+         ELSE LET s1 == [st EXCEPT !.ids = @ \cup {id}, !.pubIds = @ \cup {id}] IN
+              IF Ver = 3 /\ Role = "server" /\ q > MaxQos THEN Viol(s1, 130)
+              ELSE LET r == Resolve(s1, p) IN
+                   IF r[1] THEN StartPub(r[2], n, q, id, r[3], p.plen) ELSE Viol(s1, r[4])
     [] p.kind = "pubrel" ->
          IF p.id \in st.q2rec THEN CtlArrive(st, n, "pubrel", p.id)
-         ELSE IF Ver = 3 THEN Viol
+         ELSE IF Ver = 3 THEN Viol(st, 130)
          ELSE InCall(st, n, Resp("PUBCOMP", p.id, 146))
     [] p.kind \in {"sub", "unsub"} ->
-         IF Role = "client" THEN Viol
+         IF Role = "client" THEN Viol(st, 130)
          ELSE IF p.id \in st.ids
-           THEN IF Ver = 3 THEN Viol
-                ELSE InCall(Emit(st, << E("out", IF p.kind = "sub" THEN "SUBACK" ELSE "UNSUBACK", 0, p.id, 0, 145, 0, "") >>), n, None)
+           THEN IF Ver = 3 THEN Viol(st, 130)
+                ELSE InCall(Write(st, Resp(IF p.kind = "sub" THEN "SUBACK" ELSE "UNSUBACK", p.id, 145)), n, None)
            ELSE CtlArrive(st, n, p.kind, p.id)
-    [] OTHER -> IF Role = "client" THEN Viol ELSE CtlArrive(st, n, "ping", 0)
+    [] OTHER -> IF Role = "client" THEN Viol(st, 130) ELSE CtlArrive(st, n, "ping", 0)
 
-\* run the connection's own tasks until nothing is runnable: a readiness poll releases the next parked
-\* control call once the inner service is free; the dispatcher reads the next packet unless readiness
-\* is held by a released call
+\* the in-flight limiter admits another request: requests are charged from dispatch until their result exists
+RECURSIVE SumSz(_)
+SumSz(q) == IF q = << >> THEN 0 ELSE (IF Head(q).r = Pend THEN Head(q).sz ELSE 0) + SumSz(Tail(q))
+NPend(q) == Len(SelectSeq(q, LAMBDA e : e.r = Pend))
+LimReady(st) ==
+  /\ (Ver = 3 /\ MaxRecv > 0) => NPend(st.ioq) < MaxRecv
+  /\ (Role = "server" /\ MaxRecvSize > 0) => SumSz(st.ioq) <= MaxRecvSize
+
+\* run the connection's own tasks until nothing is runnable.  One iteration = one poll of the dispatcher's
+\* readiness future, which persists until it resolves:
+\*   - the inner readiness (BufferService) releases the next parked control call once the inner service is free,
+\*     and is pending while a released call holds it;
+\*   - InFlightServiceImpl::ready joins it with the limiter: an inner readiness obtained while the limiter was
+\*     exhausted is kept (`rdy`), so when a slot frees the next packet is read before the pipeline is polled again.
+\*     Whether the kept readiness survives depends on which task completed the request (the inline future polled by
+\*     the dispatcher itself re-runs the readiness check through the pipeline's waiters, a spawned one does not):
+\*     the model leaves that to the choice `ch` of the command (1 = the readiness is evaluated afresh), both orders
+\*     are explored by TLC and accepted by the trace validator.
 RECURSIVE Quiesce(_)
 Quiesce(st) ==
   IF ~st.alive THEN st
+  ELSE IF st.rdy /\ st.ch = 1 /\ LimReady(st) /\ st.ctlRun = 0 /\ st.ctlBuf # << >> THEN Quiesce([st EXCEPT !.rdy = FALSE])
+  ELSE IF st.rdy
+    THEN IF ~LimReady(st) THEN st
+         ELSE IF st.rbuf = << >> THEN Quiesce([st EXCEPT !.rdy = FALSE])
+         ELSE Quiesce(Dispatch([st EXCEPT !.rdy = FALSE, !.rbuf = Tail(@)], Head(st.rbuf)))
   ELSE IF st.ctlRun = 0 /\ st.ctlBuf # << >>
     THEN LET c == Head(st.ctlBuf)
              x == StartCtl([st EXCEPT !.ctlBuf = Tail(@)], c.n, c.kind, c.id, TRUE)
          IN Quiesce(IF x[2] = Pend THEN x[1] ELSE HandleRes(x[1], c.n, x[2]))
-  ELSE IF ~(st.ctlRun # 0 /\ st.held) /\ st.rbuf # << >>
-    THEN Quiesce(Dispatch([st EXCEPT !.rbuf = Tail(@)], Head(st.rbuf)))
+  ELSE IF st.ctlRun # 0 /\ st.held THEN st
+  ELSE IF ~LimReady(st) THEN [st EXCEPT !.rdy = TRUE]
+  ELSE IF st.rbuf # << >> THEN Quiesce(Dispatch([st EXCEPT !.rbuf = Tail(@)], Head(st.rbuf)))
   ELSE st
 
-InName(kind) == CASE kind \in {"pub0", "pub1", "pub2"} -> "PUBLISH" [] kind = "pubrel" -> "PUBREL"
-                  [] kind = "sub" -> "SUBSCRIBE" [] kind = "unsub" -> "UNSUBSCRIBE" [] OTHER -> "PINGREQ"
+----------------------------------------------------------------------------
+\* packets as the peer writes them: [kind, id, q, topic, alias, plen]
+TLen(topic) == IF topic = "" THEN 0 ELSE IF topic = "long" THEN 40 ELSE 1
+TopicStr(topic) == TopicName(topic)
+\* Remaining Length of the frame the harness builds for the packet (what the limiter charges)
+RL(p) ==
+  CASE p.kind = "pub" -> 2 + TLen(p.topic) + (IF p.q > 0 THEN 2 ELSE 0)
+                         + (IF Ver = 5 THEN 1 + (IF p.alias > 0 THEN 3 ELSE 0) ELSE 0) + p.plen
+    [] p.kind = "pubrel" -> 2
+    [] p.kind = "sub" -> IF Ver = 5 THEN 7 ELSE 6
+    [] p.kind = "unsub" -> IF Ver = 5 THEN 6 ELSE 5
+    [] OTHER -> 0
 
-\* command: (arm an outcome and) the peer writes one packet
-DoIn(st, kind, id, imm, outcome) ==
-  LET n == st.narr + 1
-      q == IF kind = "pub1" THEN 1 ELSE IF kind = "pub2" THEN 2 ELSE 0
-      pid == IF kind \in {"pub0", "ping"} THEN 0 ELSE id
-      inEv == IF q > 0 \/ kind = "pub0" THEN E("in", "PUBLISH", 0, pid, q, 0, 1, "t") ELSE E("in", InName(kind), 0, pid, 0, 0, 0, "")
-      s1 == [Emit(st, << inEv >>) EXCEPT !.narr = n, !.armed = IF imm THEN Append(@, outcome) ELSE @,
-                !.rbuf = Append(@, [n |-> n, kind |-> kind, id |-> id])]
-  IN Quiesce(s1)
+InName(kind) == CASE kind = "pub" -> "PUBLISH" [] kind = "pubrel" -> "PUBREL"
+                  [] kind = "sub" -> "SUBSCRIBE" [] kind = "unsub" -> "UNSUBSCRIBE" [] OTHER -> "PINGREQ"
+InEvs(p) ==
+  IF p.kind = "pub"
+    THEN << E("in", "PUBLISH", p.alias, IF p.q = 0 THEN 0 ELSE p.id, p.q, 0, p.plen, TopicStr(p.topic)),
+            E("in_props", "", RL(p), 97, 0, 0, 0, "|||") >>
+    ELSE << E("in", InName(p.kind), 0, IF p.kind = "ping" THEN 0 ELSE p.id, 0, 0, 0, "") >>
+
+\* command: (arm outcomes and) the peer writes one or several packets in ONE write
+RECURSIVE Arrive(_, _)
+Arrive(st, pk) ==
+  IF pk = << >> THEN st
+  ELSE LET p == Head(pk)
+           n == st.narr + 1
+       IN Arrive([Emit(st, InEvs(p)) EXCEPT !.narr = n,
+                    !.rbuf = Append(@, [n |-> n, kind |-> p.kind, id |-> p.id, q |-> p.q, topic |-> p.topic,
+                                        alias |-> p.alias, plen |-> p.plen, sz |-> RL(p)])], Tail(pk))
+DoIn(st, pk, arm, ch) == Quiesce(Arrive([st EXCEPT !.armed = @ \o arm, !.ch = ch], pk))
 
 \* command: the application's handler h finishes with the given outcome
-DoComplete(st, gi, outcome) ==
+DoComplete(st, gi, outcome, ch) ==
   LET g == st.gates[gi]
       s1 == [Emit(st, << E("h_end", outcome, g.h, 0, 0, 135, 0, "") >>)
-               EXCEPT !.gates = SubSeq(@, 1, gi - 1) \o SubSeq(@, gi + 1, Len(@))]
+               EXCEPT !.gates = SubSeq(@, 1, gi - 1) \o SubSeq(@, gi + 1, Len(@)), !.ch = ch]
   IN IF g.kind = "pub"
        THEN LET s2 == IF PubFails(g.q, outcome) THEN FailClose(s1, FALSE) ELSE s1 IN
             Quiesce(HandleRes(PubDone(s2, g.q, g.id, outcome), g.n, PubResult(g.q, g.id, outcome)))
-       ELSE LET s2 == IF outcome # "ok" THEN FailClose(s1, TRUE) ELSE s1 IN
+       ELSE LET s2 == IF CtlFails(outcome) THEN FailClose(s1, TRUE) ELSE s1 IN
             Quiesce(HandleRes(CtlDone(s2, g.kind, g.id, outcome), g.n, CtlResult(g.kind, g.id, outcome)))
 
 \* events of the finished command, and the state ready for the next one
 Evs(st) == st.ev
-Next0(st) == [st EXCEPT !.ev = << >>]
+Next0(st) == [st EXCEPT !.ev = << >>, !.cur = 0, !.ch = 0]
 
 QueueOk(st) == /\ st.inline = 0 \/ \E i \in 1..Len(st.ioq) : st.ioq[i].n = st.inline
                /\ \A i \in 1..Len(st.gates) : \E j \in 1..Len(st.ioq) : st.ioq[j].n = st.gates[i].n
+               /\ st.pubIds \subseteq st.ids
 =============================================================================
